@@ -367,7 +367,12 @@ pub fn nesting_docs(max: usize) -> Vec<Vec<u8>> {
     out
 }
 
-pub fn families(tier: Tier, _variant: &str, mode: Mode) -> Vec<Family> {
+pub fn families(tier: Tier, variant: &str, mode: Mode) -> Vec<Family> {
+    families_opt(tier, variant, mode, true)
+}
+
+/// `with_viable = false` leaves out the (expensive to materialise) deviation-bounded token family
+pub fn families_opt(tier: Tier, _variant: &str, mode: Mode, with_viable: bool) -> Vec<Family> {
     let full = gen::FRAMINGS_FULL;
     let f2 = gen::FRAMINGS_2;
     let f3 = gen::FRAMINGS_3;
@@ -376,7 +381,7 @@ pub fn families(tier: Tier, _variant: &str, mode: Mode) -> Vec<Family> {
     let dc = |framings: &'static [Framing]| DocCheck { mode, framings, decode: true, skip: true, selfcheck: sc };
     let mut v = vec![];
     v.push(seq_family("t16-full", gen::T16, if q { 3 } else { 5 }, b"", b"", dc(if q { full } else { f3 })));
-    {
+    if with_viable {
         let d = dc(if q { f2 } else { f3 });
         let (l, dev, more) = if q { (5, 1, 1) } else { (7, 2, 1) };
         v.push(Family::of_vec("t16-viable+deviations", viable_with_deviations(l, dev, more), move |doc, ctx| {
